@@ -11,6 +11,12 @@ built = {
  'C02': dict(cat='exploration', ref='DESIGN.md §4 C02', tech='bounded-exhaustive metamorphic testing: every rewrite rule at every site of every enumerated program, implementation compared with itself',
    text='Every control-composition program (<= 2 nodes in quick, 3 in thorough) is rewritten by 7 meaning-preserving AST rewrites at every applicable site alone and at all sites; original and rewritten text must print the same and end the same way on the real pipeline.',
    note='Rewrites are correct by construction on the generated subset (integer counters and SELECT subjects, non-zero steps); no reference semantics involved.'),
+ 'C03': dict(cat='model_checking', ref='DESIGN.md §4 C03', tech='explicit exploration of the full tree of call histories up to a depth, every history replayed on the implementation and compared with a reference model; plus bounded-exhaustive enumeration of argument shapes',
+   text='Argument shapes (7 parameter types x 11 argument shapes x 4 callee actions x SUB/FUNCTION, the same variable twice, recursion depth 0..3) and the full tree of call histories of depth 4 (thorough 6) over STATIC sub / ordinary sub calling it / ordinary sub with a shadowing local / STATIC function inside an argument expression / recursive function / SHARED assignment, at module level and inside a SUB; each compiled to a program, run on the real pipeline and judged by the reference semantics; a VM monitor checks context states and memory blocks.',
+   note='R19: subscripts depending on another by-reference argument of the same call are not generated; reference semantics hand-written.'),
+ 'C04': dict(cat='exploration', ref='DESIGN.md §4 C04', tech=T_ENUM,
+   text='All array shapes of 1-2 (thorough 3) dimensions with lower bounds {-2,0,1} and extents {1,2,3} x 7 element types (incl. STRING*3 and a nested record): fill/read-back in both orders with LBOUND/UBOUND, an out-of-range probe at every face of the box (read and write), every ordered pair of writes with a full dump for boxes of <= 6 cells; fixed-length strings as variable, field and element assigned through 5 routes; typed subscripts; all judged by the reference semantics.',
+   note='Content of a fixed-length string before its first assignment is never read.'),
  'C06': dict(cat='exploration', ref='DESIGN.md §4 C06', tech='bounded-exhaustive enumeration of boundary lattices x delivery routes, differential against the reference semantics plus an in-VM typed-variable monitor',
    text='For every ordered pair of numeric types every value of the target type boundary lattice is delivered through 9 routes (assignment, array element, record field, by-value parameter, FUNCTION result, FOR start+increment, READ, INPUT, FOR limit) as literal and as typed variable; + - * / MOD and unary minus on all pairs of the INTEGER and LONG boundary lattices; judged by the reference semantics (value or Overflow 6 at the right row) and by a monitor in the VM that checks at every statement start that every variable holds a value of its own type and range.',
    note='Ties x.5 excluded (R1); quotients with a LONG operand (R21) and near-whole quotients (R22, known finding) are not judged.'),
